@@ -1,6 +1,6 @@
 (* Proofs for Model/RobustGrpcTime.v (property C19: the grpc gun against a silent target). *)
 From Coq Require Import List ZArith NArith Bool Lia.
-From PV Require Import Model.Robust Model.RobustGrpcTime.
+From PV Require Import Model.Robust Model.RobustGrpcScn Model.RobustGrpcTime.
 Import ListNotations.
 Local Open Scope N_scope.
 
@@ -118,4 +118,49 @@ Proof.
     destruct (grpc_shoot_timed conv cx conf c) as [|t s].
     + exists [], 0. split; [reflexivity|cbn; lia].
     + rewrite H1. exists (s :: ss), (t + el). split; [reflexivity|cbn [length]; lia].
+Qed.
+
+(* ---------- the scenario gun over time ---------- *)
+Lemma scenario_timed_returns_acc : forall conv conf cs acc,
+  exists ss el, scenario_timed conv code_ctx conf cs = (ss, el, false) /\
+                el <= N.of_nat (length cs) * effective_timeout conf /\
+                grpc_scn_steps (map (gstep_of conv conf) cs) acc = Returned (acc ++ ss).
+Proof.
+  intros conv conf cs. induction cs as [|c r IH]; intros acc.
+  - exists [], 0. cbn. rewrite app_nil_r. repeat split; lia.
+  - destruct (grpc_shot_returns_in_time conv conf c) as [t [s [Hs [Ht Hr]]]].
+    cbn [scenario_timed map grpc_scn_steps]. rewrite Hs.
+    assert (Hlen : N.of_nat (length (c :: r)) * effective_timeout conf =
+                   effective_timeout conf + N.of_nat (length r) * effective_timeout conf).
+    { cbn [length]. rewrite Nat2N.inj_succ. lia. }
+    destruct c as [| |b].
+    + exists [s], t. cbn in Hr. inversion Hr; subst. split; [reflexivity|]. split; [lia|]. reflexivity.
+    + exists [s], t. cbn in Hr. inversion Hr; subst. split; [reflexivity|]. split; [lia|]. reflexivity.
+    + destruct (IH (acc ++ [s])) as [ss [el [H1 [H2 H3]]]]. rewrite H1.
+      exists (s :: ss), (t + el). split; [reflexivity|]. split; [lia|].
+      assert (Hstep : grpc_scn_step (gstep_of conv conf (GcCall b)) = GStepOk s).
+      { destruct b as [|d st]; cbn in Hr; inversion Hr; subst; reflexivity. }
+      rewrite Hstep, H3, <- app_assoc. reflexivity.
+Qed.
+
+Lemma scenario_timed_returns : forall conv conf cs,
+  exists ss el, scenario_timed conv code_ctx conf cs = (ss, el, false) /\
+                el <= N.of_nat (length cs) * effective_timeout conf /\
+                grpc_scn_shoot (map (gstep_of conv conf) cs) = Returned ss.
+Proof. intros conv conf cs. exact (scenario_timed_returns_acc conv conf cs []). Qed.
+
+Lemma scenario_silent_call_goes_on : forall conv conf b r,
+  (match b with GbNever => True | GbAnswer t _ => effective_timeout conf <= t end) ->
+  scenario_timed conv code_ctx conf (GcCall b :: r) =
+  (let '(ss, el, stuck) := scenario_timed conv code_ctx conf r in
+   (tsample (conv deadline_exceeded) :: ss, effective_timeout conf + el, stuck)).
+Proof.
+  intros conv conf b r H. cbn [scenario_timed]. rewrite (silent_call_sample conv conf b H). reflexivity.
+Qed.
+
+Lemma scenario_no_deadline_stuck : forall conv cx conf r, has_timeout cx = false ->
+  scenario_timed conv cx conf (GcCall GbNever :: r) = ([], 0, true).
+Proof.
+  intros conv cx conf r H. cbn [scenario_timed].
+  rewrite (proj1 (no_deadline_stuck conv cx conf [] [] H)). reflexivity.
 Qed.
